@@ -16,6 +16,8 @@ char *strtok_r(char *str, const char *delim, char **saveptr) {
 	/* search first not delimiting character */
 	do {
 		if ('\0' == (ch = *str++)) {
+			/* no token left: later calls with NULL must stay at the end */
+			*saveptr = str - 1;
 			return NULL;
 		}
 	} while(strchr(delim, ch));
